@@ -362,6 +362,15 @@ func c31Gen(r *vh.Rand, tier string, n int) []c31In {
 		// undeclared size, over-long partial, server ignores Range
 		c31In{Size: 0, Content: "abcd", Partial: sp("XXXXXXXX"), Attempts: 3, Script: []c31Beh{norange("abcd")}},
 	)
+	// bytes left by an over-long body, then an error reply (or several, or a redirect) to the Range retry, then the good body
+	e5 := func(st int, body string) c31Beh { return c31Beh{Kind: "resp", Status: st, HR: false, Body: body, Cut: "full"} }
+	ins = append(ins,
+		c31In{Size: 4, Content: "abcd", Attempts: 4, Script: []c31Beh{early("XXXXXXXX", 8), e5(503, "err"), good("abcd")}},
+		c31In{Size: 4, Content: "abcd", Attempts: 5, Script: []c31Beh{early("XXXXXXXX", 8), e5(500, ""), e5(502, "a long error page"), norange("abcd")}},
+		c31In{Size: 4, Content: "abcd", Attempts: 4, Script: []c31Beh{early("abcdXX", 6), {Kind: "redirect"}, e5(503, "err"), good("abcd")}},
+		c31In{Size: 0, Content: "abcd", Partial: sp("XXXXXXXX"), Attempts: 3, Script: []c31Beh{e5(503, "err"), good("abcd")}},
+		c31In{Size: 4, Content: "abcd", Attempts: 4, Script: []c31Beh{early("XXXXXXXX", 8), e5(404, "err"), good("abcd")}},
+	)
 	// download cache: success then cache hit (no request although the second script would fail); failure then normal download
 	ins = append(ins,
 		c31In{Size: 4, Content: "abcd", Attempts: 3, Script: []c31Beh{good("abcd")}, Second: &c31Second{Partial: sp("XX"), Script: []c31Beh{good("XXXX")}}},
@@ -399,6 +408,50 @@ func c31Gen(r *vh.Rand, tier string, n int) []c31In {
 			in.Script = append(append(pre, tail), in.Script...)
 			if len(in.Script) > 7 {
 				in.Script = in.Script[:7]
+			}
+		}
+		if r.Chance(1, 5) {
+			// a write that leaves bytes on disk (or an over-long partial file), then one or more error replies / redirects /
+			// dropped connections answering the Range retry, then a good body: every reply in between may reset the position
+			content := in.Content
+			var sc []c31Beh
+			junk := content + r.Str(c31Alpha+"X", 1, 4)
+			if r.Bool() {
+				junk = r.Str("X", len(content)+1, len(content)+4)
+			}
+			switch r.Intn(3) {
+			case 0:
+				in.Partial = sp(junk)
+				if in.Size != 0 && r.Bool() {
+					in.Partial = sp(junk[:r.Intn(len(content))]) // shorter than the declared size: the Range path is taken
+				}
+			case 1:
+				in.Partial = nil
+				sc = append(sc, c31Beh{Kind: "resp", Status: 200, HR: true, Body: junk, Cut: "early", N: r.Range(1, len(junk))})
+			default:
+				in.Partial = sp(content[:r.Intn(len(content)+1)])
+				sc = append(sc, c31Beh{Kind: "resp", Status: 206, HR: false, Body: junk, Cut: "early", N: r.Range(1, len(junk))})
+			}
+			for k := r.Range(1, 3); k > 0; k-- {
+				switch r.Intn(6) {
+				case 0:
+					sc = append(sc, c31Beh{Kind: "redirect"})
+				case 1:
+					sc = append(sc, c31Beh{Kind: "drop"})
+				case 2:
+					sc = append(sc, c31Beh{Kind: "resp", Status: []int{404, 403, 416}[r.Intn(3)], HR: r.Bool(), Body: "error page", Cut: "full"})
+				default:
+					sc = append(sc, c31Beh{Kind: "resp", Status: []int{500, 502, 503}[r.Intn(3)], HR: r.Bool(), Body: r.Pick([]string{"", "err", "a long error page body"}), Cut: "full"})
+				}
+			}
+			sc = append(sc, c31Beh{Kind: "resp", Status: 200, HR: r.Bool(), Body: content, Cut: "full"})
+			if r.Chance(1, 3) {
+				sc = append(sc, c31Beh{Kind: "resp", Status: 200, HR: r.Bool(), Body: content, Cut: "full"})
+			}
+			in.Script = sc
+			in.Attempts = r.Range(len(sc)-1, len(sc)+1)
+			if in.Attempts < 1 {
+				in.Attempts = 1
 			}
 		}
 		if r.Chance(1, 7) {
